@@ -44,6 +44,8 @@ import (
 //	    cannot be sealed; :x<kind> (pipex exchange): the input is an external-location pointer to an uploaded object
 //	    of that kind (g good, t good+cut-short tail, j good+junk, 2 two data batches, l log+data, n nested pointer
 //	    only, d data+nested pointer, s checksum mismatch); `unary httpx echo <n> 0 in=<kind>`: the REQUEST is one
+//	    :x<kind> on an httpx exchange: the same over HTTP (spoken by hand, the native client strips the location key);
+//	    there a resolved input that is also cast keeps both replacements until the turn returns
 //	transports pipex / httpx / httpxacc / httpxpre / httpxpost: a server with in-memory external storage
 //	    (threshold 1 byte: every non-empty batch is uploaded); acc/pre/post = max_externalized_response_bytes
 //	    set so that the upload is accepted / refused by the pre-flight / refused only after the upload
@@ -879,7 +881,10 @@ func c41Exec(c *Case) {
 							keep = append(keep, fl)
 						}
 					case len(fl) == 2 && fl[0] == 'x' && t.xin != "":
-						if transport == "pipex" && kind == "xch" {
+						if (transport == "pipex" || transport == "httpx") && kind == "xch" {
+							if transport == "httpx" {
+								keep = append(keep, "both") // every replacement has its own deferred release
+							}
 							_, _, resolves := c41ExtObject(t.xin, goodIn)
 							if resolves {
 								keep = append(keep, "xok")
@@ -911,7 +916,11 @@ func c41Exec(c *Case) {
 				case "httpxacc":
 					extCap = 1 << 30
 				}
-				if kind == "xch" && transport != "httpxpre" {
+				anyXin := false
+				for _, t := range turns {
+					anyXin = anyXin || t.xin != ""
+				}
+				if kind == "xch" && transport != "httpxpre" && !(transport == "httpx" && anyXin) {
 					for i, t := range turns {
 						castFails := wire == "str" || ((wire == "f64" || wire == "two") && t.bad)
 						if t.end == "ok" && t.emits == 1 && !castFails {
@@ -925,6 +934,9 @@ func c41Exec(c *Case) {
 			c41TurnLimit = c41CastSize(wire)
 			if xSize > c41TurnLimit {
 				c41TurnLimit = xSize
+			}
+			if transport == "httpx" && xSize > 0 {
+				c41TurnLimit = c41CastSize(wire) + xSize // HTTP exchange keeps the resolved batch next to the cast batch
 			}
 			params := c41ParamsBatch(ps, 1)
 			cancelMD := arrow.NewMetadata([]string{vgirpc.MetaCancel}, []string{"true"})
@@ -968,12 +980,22 @@ func c41Exec(c *Case) {
 					defer closeT()
 					url = t.URL
 				}
+				rawExt := false
+				for _, t := range turns {
+					if t.xin != "" && transport == "httpx" && kind == "xch" {
+						rawExt = true
+					}
+				}
 				cl, err := vgirpc.NewHttpClient(url)
 				if err != nil {
 					panic(err)
 				}
 				ctx := context.Background()
-				if kind == "xch" {
+				if rawExt {
+					// the native client strips vgi_rpc.location from inputs, so an exchange whose inputs
+					// are external-location pointers is spoken by hand: init, then one POST per turn
+					c41RawExchange(c, url, method, params, inSchema, wire, turns, store)
+				} else if kind == "xch" {
 					st, err := cl.OpenExchange(ctx, method, params, vgirpc.ClientStreamSchema{Input: inSchema, Output: c41ValueSchema})
 					if err == nil {
 						for i, t := range turns {
@@ -1050,6 +1072,80 @@ func c41Exec(c *Case) {
 		default:
 			c.Out(l, "err:bad-op")
 		}
+	}
+}
+
+// c41RawExchange drives an HTTP exchange turn by turn with hand-built bodies. The continuation
+// token is taken from the response body or, when the answer was uploaded, from the stored object.
+func c41RawExchange(c *Case, url, method string, params arrow.RecordBatch, inSchema *arrow.Schema, wire string, turns []c41Turn, store *c41Store) {
+	post := func(path string, body []byte) ([]byte, bool) {
+		resp, err := http.Post(url+"/"+method+"/"+path, "application/vnd.apache.arrow.stream", bytes.NewReader(body))
+		if err != nil {
+			return nil, false
+		}
+		defer resp.Body.Close()
+		var buf bytes.Buffer
+		_, _ = buf.ReadFrom(resp.Body)
+		return buf.Bytes(), resp.StatusCode == 200 && resp.Header.Get("X-VGI-RPC-Error") == ""
+	}
+	tokens := func(body []byte) (state, call []byte) {
+		state, call = vgirpc.FindStreamTokens(body)
+		if state != nil {
+			return
+		}
+		// the answer may be an external-location pointer: the token rides the uploaded object
+		rd, err := ipc.NewReader(bytes.NewReader(body))
+		if err != nil {
+			return nil, nil
+		}
+		defer rd.Release()
+		for rd.Next() {
+			if rb, ok := rd.RecordBatch().(arrow.RecordBatchWithMetadata); ok {
+				if loc, found := rb.Metadata().GetValue(vgirpc.MetaLocation); found && strings.HasPrefix(loc, store.base) {
+					store.mu.Lock()
+					obj := store.objs[strings.TrimPrefix(loc, store.base)]
+					store.mu.Unlock()
+					return vgirpc.FindStreamTokens(obj)
+				}
+			}
+		}
+		return nil, nil
+	}
+	var req bytes.Buffer
+	c41WriteRequest(&req, method, params, nil, nil)
+	body, ok := post("init", req.Bytes())
+	if !ok {
+		return
+	}
+	state, call := tokens(body)
+	for i, t := range turns {
+		if state == nil || t.end == "cancel" {
+			return
+		}
+		keys, vals := []string{vgirpc.MetaStreamState}, []string{string(state)}
+		if call != nil {
+			keys, vals = append(keys, vgirpc.MetaCallState), append(vals, string(call))
+		}
+		var b arrow.RecordBatch
+		if t.xin != "" {
+			bad := t.bad
+			data, sha, _ := c41ExtObject(t.xin, func(j int) arrow.RecordBatch { return c41InputBatch(inSchema, wire, i+j, bad, nil) })
+			b = c41Pointer(inSchema, store.put(data), sha, keys, vals)
+			c.Stat("http-exchange-in-" + t.xin)
+		} else {
+			md := arrow.NewMetadata(keys, vals)
+			b = c41InputBatch(inSchema, wire, i, t.bad, &md)
+		}
+		var tb bytes.Buffer
+		w := ipc.NewWriter(&tb, ipc.WithSchema(inSchema))
+		_ = w.Write(b)
+		_ = w.Close()
+		b.Release()
+		body, ok = post("exchange", tb.Bytes())
+		if !ok {
+			return
+		}
+		state, call = tokens(body)
 	}
 }
 
@@ -1136,7 +1232,7 @@ func c41Gen(g *Gen) {
 				if kind == "xch" && strings.HasPrefix(transport, "http") && r.Chance(12) {
 					ts += ":unenc" // after this turn the state cannot be sealed into the next cursor
 				}
-				if kind == "xch" && transport == "pipex" && wire != "str" && r.Chance(45) {
+				if kind == "xch" && (transport == "pipex" || transport == "httpx") && r.Chance(45) {
 					// this turn's input is an external-location pointer
 					ts += ":x" + Pick(r, []string{"g", "g", "g", "t", "j", "2", "l", "n", "d", "s"})
 				}
